@@ -25,7 +25,7 @@ META = dict(
     "fail. CoAP: for every outcome vector over {ok empty, ok body, error status, wrong tid, wrong control, error+wrong control} "
     "of batches 1..N the decoded list and the dict returned by read/write/subscribe/unsubscribe (real EncryptionContext, "
     "fake aiocoap context, reference accessory) must attribute the i-th outcome to the i-th requested id and report every bad "
-    "item as a per-item error without touching the others CoAP batches with an id missing from the controller's cached database are judged by what reaches the accessory (no value paired with another characteristic's id). Also: sequences of requests on one BLE session (counters live on across multi-fragment requests); attribution of reads under schedules of the gated BLE harness (cancel, timers, drops, accessory changes between reads). Also constant and periodic bodies (consecutive fragments byte-identical on a plain link).",
+    "item as a per-item error without touching the others CoAP batches with an id missing from the controller's cached database are judged by what reaches the accessory (no value paired with another characteristic's id). Also: sequences of requests on one BLE session (counters live on across multi-fragment requests); attribution of reads under schedules of the gated BLE harness (cancel, timers, drops, accessory changes between reads). Also constant and periodic bodies (consecutive fragments byte-identical on a plain link). CoAP also: batches after 250..600 earlier exchanges on the session; 2..4 overlapping callers on one session.",
     note="content-independent: body bytes are a seeded fill pattern; statuses outside the seven defined ones, truncated batches "
     "and empty batches are outside the declared alphabet; reference layers and the cryptography wheel are trusted "
     "(cross-checked in selftest)",
